@@ -65,6 +65,68 @@ func firstMatch(code []byte, input []byte) (target string, matched bool, ok bool
 	return target, matched, true, len(b) == 0, nmatch
 }
 
+// allInstrs decodes a whole code string.
+func allInstrs(code []byte) (is []GInstr, ok bool) {
+	b := code
+	for len(b) > 0 {
+		s, rest, err, p := decodeStep(b)
+		if err != nil || p != nil {
+			return nil, false
+		}
+		gi, okG := parseGInstr(s)
+		if !okG {
+			return nil, false
+		}
+		is = append(is, gi)
+		b = rest
+	}
+	return is, true
+}
+
+// signalOutcome walks pending bytecode the way input handling does, for code with CATCH/CROAK lines on client flags:
+// "croak" / "catch": a line whose flag test holds is reached before any INCMP matches; "incmp": every signal line before
+// the only matching INCMP is a no-op and nothing but INCMP lines follow it. "" when these rules do not decide.
+// reading: READIN is set when the signal line runs.
+func signalOutcome(code, in, flags []byte) (kind, target string, reading bool) {
+	is, ok := allInstrs(code)
+	if !ok {
+		return "", "", false
+	}
+	reading = flagBit(flags, 0)
+	signals := 0
+	for k, gi := range is {
+		switch gi.Op {
+		case "INCMP":
+			reading = true
+			if gi.B == "*" || gi.B == string(in) {
+				if signals == 0 {
+					return "", "", false // plain routing: the C03 rules apply
+				}
+				for _, x := range is[k+1:] {
+					if x.Op != "INCMP" || x.B == string(in) {
+						return "", "", false
+					}
+				}
+				return "incmp", gi.A, true
+			}
+		case "CATCH", "CROAK":
+			if gi.N < 8 || int(gi.N) >= 8*len(flags) {
+				return "", "", false
+			}
+			signals++
+			if flagBit(flags, int(gi.N)) == gi.M {
+				if gi.Op == "CATCH" {
+					return "catch", gi.A, reading
+				}
+				return "croak", "", reading
+			}
+		default:
+			return "", "", false
+		}
+	}
+	return "", "", false
+}
+
 func simpleNode(code []byte) bool {
 	// a node whose own code performs no further navigation
 	b := code
@@ -243,6 +305,7 @@ func engineOracles(c *Ctx, ec *eCase, recs []reqRec) {
 	sizes := loadSizes(ec)
 	pers := ec.mode != "long"
 	hasFirst := len(ec.firsts) > 0
+	staticSym := ec.staticSyms() // served by DbResource from STATICLOAD: their calls are not logged
 	var prev *reqRec
 	dupSeen := false
 	okSeen := false
@@ -332,7 +395,7 @@ func engineOracles(c *Ctx, ec *eCase, recs []reqRec) {
 			}
 		}
 		// ---- C06 / C20: while TERMINATE is set nothing runs
-		if prev != nil && pers && !hasFirst && flagBit(prev.flags, 6) && !refusedInput(in) && !(ec.roe && len(in) == 0) {
+		if prev != nil && pers && flagBit(prev.flags, 6) && !refusedInput(in) && !(ec.roe && len(in) == 0) {
 			if len(r.calls) > 0 || len(r.out) > 0 || r.cont || strings.Join(prev.path, "/") != strings.Join(r.path, "/") || prev.idx != r.idx {
 				c.Fail("C06", "terminate-not-blocking", fmt.Sprintf("%s: TERMINATE was set but calls=%d out=%q cont=%v path %v->%v", where, len(r.calls), trunc(string(r.out), 40), r.cont, prev.path, r.path))
 				c.Fail("C20", "terminate-not-blocking", fmt.Sprintf("%s: TERMINATE was set but calls=%d out=%q cont=%v path %v->%v", where, len(r.calls), trunc(string(r.out), 40), r.cont, prev.path, r.path))
@@ -369,6 +432,9 @@ func engineOracles(c *Ctx, ec *eCase, recs []reqRec) {
 		if pers && !hasFirst && r.x == "ok" && r.f == "ok" && !r.cont && !flagBit(r.flags, 6) && len(r.code) == 0 {
 			if len(r.path) != 0 {
 				c.Fail("C20", "end-not-unwound", fmt.Sprintf("%s: session ended gracefully but stored path is %v", where, r.path))
+			}
+			if r.state != "nostate" && r.caSnap.last != "" {
+				c.Fail("C20", "end-last-value-kept", fmt.Sprintf("%s: session ended gracefully but the stored cache keeps the last loaded value %q, which a later end would deliver again", where, trunc(r.caSnap.last, 30)))
 			}
 			for _, m := range r.caSnap.frames {
 				if len(m) > 0 {
@@ -481,10 +547,55 @@ func engineOracles(c *Ctx, ec *eCase, recs []reqRec) {
 							if visible && called > 0 {
 								c.Fail("C05", "load-while-visible", fmt.Sprintf("%s: LOAD %s ran its function although the symbol was visible (loaded at an outer level)", where, gi.A))
 							}
-							if !visible && called != 1 {
+							if !visible && called != 1 && !staticSym[gi.A] {
 								c.Fail("C05", "load-not-run", fmt.Sprintf("%s: entering %q, LOAD %s of a symbol that is not visible ran its function %d times", where, t, gi.A, called))
 							}
 						}
+					}
+				}
+			}
+		}
+		// ---- C04 / C06: a relative target is resolved by the move table, never fetched from the resource as a node
+		for _, l := range r.lookups {
+			if l.kind == "code" && (l.sym == "_" || l.sym == "^" || l.sym == "." || l.sym == ">" || l.sym == "<") {
+				c.Fail("C04", "relative-target-fetched-as-node", fmt.Sprintf("%s: the resource was asked for the code of %q (session at %v)", where, l.sym, r.path))
+				c.Fail("C06", "relative-target-fetched-as-node", fmt.Sprintf("%s: the resource was asked for the code of %q (session at %v)", where, l.sym, r.path))
+				break
+			}
+		}
+		// ---- C06: CATCH / CROAK on a client flag met while the input is being handled
+		if prev != nil && prev.x == "ok" && r.x == "ok" && !refusedInput(in) && !hasFirst && !ec.roe && prev.cont && len(prev.code) > 0 &&
+			!flagBit(prev.flags, 6) && ec.wf && len(prev.path) > 0 {
+			kind, t, reading := signalOutcome(prev.code, in, prev.flags)
+			if kind != "" {
+				c.Count(fmt.Sprintf("oracle:signal-%s-reading=%v", kind, reading))
+			}
+			last := ""
+			if len(r.path) > 0 {
+				last = r.path[len(r.path)-1]
+			}
+			switch kind {
+			case "croak":
+				if reading && prev.path[len(prev.path)-1] != "_catch" && calmNode(ec, "_catch") {
+					if last != "_catch" || !r.cont {
+						c.Fail("C06", "croak-input-not-catch", fmt.Sprintf("%s: CROAK fired while input %q was being handled at %v; the session should be at the catch node, it is at %v (cont=%v)", where, in, prev.path, r.path, r.cont))
+					}
+				} else if !reading && r.cont {
+					c.Fail("C06", "croak-not-terminated", fmt.Sprintf("%s: CROAK fired outside input handling at %v but the session continues at %v", where, prev.path, r.path))
+				}
+			case "catch":
+				if code, have := ec.nodes[t]; have && simpleNode(code) && r.cont {
+					exp := append(append([]string{}, prev.path...), t)
+					if strings.Join(exp, "/") != strings.Join(r.path, "/") {
+						c.Fail("C06", "catch-not-moved", fmt.Sprintf("%s: CATCH %s matched its flag at %v, session is at %v", where, t, prev.path, r.path))
+					}
+				}
+			case "incmp":
+				// every CATCH/CROAK before the matching INCMP was a no-op: the INCMP decides
+				if code, have := ec.nodes[t]; have && simpleNode(code) && r.cont {
+					exp := append(append([]string{}, prev.path...), t)
+					if strings.Join(exp, "/") != strings.Join(r.path, "/") {
+						c.Fail("C06", "signal-nonmatching-acted", fmt.Sprintf("%s: no CATCH/CROAK matched its flag, INCMP %s decides from %v, session is at %v", where, t, prev.path, r.path))
 					}
 				}
 			}
@@ -539,6 +650,43 @@ func engineOracles(c *Ctx, ec *eCase, recs []reqRec) {
 								c.Fail("C05", "load-while-visible", fmt.Sprintf("%s: the function of %q ran although the symbol stayed visible at level %d (path %v -> %v)", where, k, li, prev.path, r.path))
 							}
 						}
+					}
+				}
+			}
+		}
+		// ---- C18: a symbol loaded in this request, with the language unchanged, holds the entry of the session language
+		if prev != nil && prev.x == "ok" && r.x == "ok" && r.state != "nostate" && prev.state != "nostate" && ec.wf && !hasFirst && r.lang != nil && prev.lang != nil && *r.lang == *prev.lang && r.cont {
+			for li, fr := range r.caSnap.frames {
+				for k, v := range fr {
+					was := false
+					for _, pf := range prev.caSnap.frames {
+						if _, have := pf[k]; have {
+							was = true
+						}
+					}
+					if was {
+						continue
+					}
+					// content-only rules: one for the session language and a different default
+					var tr, def *string
+					plain := true
+					for ri := range ec.exts {
+						ru := &ec.exts[ri]
+						if ru.sym != k {
+							continue
+						}
+						if ru.callIdx >= 0 || ru.status != 0 || len(ru.set) > 0 || len(ru.reset) > 0 || ru.fail {
+							plain = false
+						}
+						if ru.lang != nil && *ru.lang == *r.lang && tr == nil {
+							tr = &ru.content
+						}
+						if ru.lang == nil && def == nil {
+							def = &ru.content
+						}
+					}
+					if plain && tr != nil && def != nil && *tr != *def && v == *def {
+						c.Fail("C18", "symbol-language", fmt.Sprintf("%s: %q was loaded at level %d while the session language is %s, but holds the default entry %q instead of %q", where, k, li, *r.lang, trunc(v, 30), trunc(*tr, 30)))
 					}
 				}
 			}
